@@ -29,13 +29,15 @@ META = {
 }
 
 
-def image(shard, cname, x):
+def images(shard, cname, x):
     t = shard["template"]
     if t == "map-direct":
-        return x + 1000
+        return [x + 1000]
     if t == "two-sinks" and cname == "k2":
-        return x + 1000
-    return x
+        return [x + 1000]
+    if t == "flatten-direct":
+        return list(x)
+    return [x]
 
 
 def invariants(shard, r, vd):
@@ -46,8 +48,9 @@ def invariants(shard, r, vd):
     for e in w.emits:
         if e.done and e.exc is None:
             for cname in t.direct:
-                if image(shard, cname, e.x) not in w.finished[cname]:
-                    vd.add("emit-completed-before-consumer@%s" % name)
+                for y in images(shard, cname, e.x):
+                    if y not in w.finished[cname]:
+                        vd.add("emit-completed-before-consumer@%s" % name)
     # ---- bound (awaiting producers only)
     if t.bound is not None and shard.get("awaiting", True):
         kind, n = t.bound
@@ -106,6 +109,7 @@ def templates(tier):
             base = {"native": native, "awaiting": awaiting, "items": items}
             for tname in ("direct", "map-direct", "two-sinks", "slice-direct"):
                 out.append(dict(base, template=tname))
+            out.append(dict(base, template="flatten-direct", out_of_order=True, items=2))
             out.append(dict(base, template="rate_limit", timers=True, interval=2))
             out.append(dict(base, template="union", items=2))
             for n in (1, 2, 3):
